@@ -228,6 +228,90 @@ func init() {
 				}
 			}
 		}
+		// rejected writes must not use up the transaction's budget: three times maxBatchCount writes to a
+		// banned namespace, then a valid write, Commit and read-back
+		e.do("rejected-budget", func() (string, string) {
+			o := smallOpts(freshDir(e.j))
+			o.NamespaceOffset = 0
+			o.MemTableSize = 64 << 10
+			db := mustOpen(o)
+			defer db.Close()
+			if err := db.BanNamespace(0x4242424242424242); err != nil {
+				return "ban", err.Error()
+			}
+			txn := db.NewTransaction(true)
+			defer txn.Discard()
+			for i := 0; i < 3*int(db.opt.maxBatchCount); i++ {
+				k := append(y.U64ToBytes(0x4242424242424242), []byte(fmt.Sprintf("-%06d", i))...)
+				var err error
+				if i%2 == 0 {
+					err = txn.Set(k, bytes.Repeat([]byte("v"), 50))
+				} else {
+					err = txn.Delete(k)
+				}
+				if err != ErrBannedKey {
+					return "validation", fmt.Sprintf("write %d to a banned namespace returned %v, want ErrBannedKey", i, err)
+				}
+			}
+			if err := txn.Set([]byte("valid-key-after"), []byte("ok")); err != nil {
+				return "validation-poisoned", fmt.Sprintf("after %d rejected writes a valid Set failed: %v (rejected writes must leave the transaction unaffected)", 3*db.opt.maxBatchCount, err)
+			}
+			if err := txn.Commit(); err != nil {
+				return "validation-commit", err.Error()
+			}
+			var got string
+			_ = db.View(func(t *Txn) error { got = getStr(t, "valid-key-after"); return nil })
+			if got != "ok" {
+				return "validation-lost", fmt.Sprintf("valid key reads %q", got)
+			}
+			return "", ""
+		})
+		// a moving value threshold (VLogPercentile) must not change the size already accounted for the
+		// entries of an open transaction: all Sets accepted => Commit never fails with ErrTxnTooBig
+		e.do("size/moving-threshold", func() (string, string) {
+			o := smallOpts(freshDir(e.j))
+			o.MemTableSize = 1 << 20
+			o.ValueThreshold = 32
+			o.VLogPercentile = 0.99
+			o.NumLevelZeroTables, o.NumLevelZeroTablesStall = 1<<20, 1<<21
+			db := mustOpen(o)
+			defer db.Close()
+			a := db.NewTransaction(true)
+			defer a.Discard()
+			for i := 0; i < 100; i++ { // 100 x 2000 bytes: pointer-sized while the threshold is 32
+				if err := a.Set([]byte(fmt.Sprintf("a-%03d", i)), bytes.Repeat([]byte("A"), 2000)); err != nil {
+					return "size-set-error", err.Error()
+				}
+			}
+			for i := 0; i < 12; i++ { // other transactions push the 99th percentile, hence the threshold, up
+				if err := db.Update(func(t *Txn) error { return t.Set([]byte(fmt.Sprintf("big-%02d", i)), bytes.Repeat([]byte("B"), 6000)) }); err != nil {
+					return "size-commit-error", err.Error()
+				}
+			}
+			for i := 0; i < 2000 && db.valueThreshold() <= 2000; i++ {
+				yieldBriefly()
+			}
+			th := db.valueThreshold()
+			if err := a.Commit(); err == ErrTxnTooBig {
+				return "accepted-txn-too-big", fmt.Sprintf("100 Sets of 2000 bytes were accepted while the value threshold was 32; the threshold moved to %d; Commit returned ErrTxnTooBig", th)
+			} else if err != nil {
+				return "size-commit-error", err.Error()
+			}
+			var n int
+			_ = db.View(func(t *Txn) error {
+				for i := 0; i < 100; i++ {
+					if v := getStr(t, fmt.Sprintf("a-%03d", i)); len(v) == 2000 {
+						n++
+					}
+				}
+				return nil
+			})
+			if n != 100 {
+				return "validation-lost", fmt.Sprintf("%d of 100 values read back after the commit", n)
+			}
+			e.r.AddExtra("threshold_moved_to", th)
+			return "", ""
+		})
 		// the count limit exactly
 		e.do("size/count-limit", func() (string, string) {
 			o := smallOpts("")
